@@ -325,6 +325,52 @@ def _mk_circ_var(rng, c, spec):
     return _mk_circ(rng, c, spec, with_var=True)
 
 
+def _mk_units(rng, c, spec):
+    """Several processing units on the same transcripts: 2-3 genes, each transcript may carry small variants (main call),
+    1-2 fusions as donor with different breakpoints and 1-2 circRNAs; small variants lie up- and downstream of the breakpoints
+    and inside the circles, so the per-unit variant filters all have work to do on a shared record pool."""
+    c.ref = refgen.make_reference(rng, n_genes=rng.randint(2, 3), min_exons=2, max_exons=4, exon_len=(30, 90),
+                                  coding_p=0.6, sec_p=0.1, nf_p=0.1, n_chroms=rng.randint(1, 2))
+    genes = c.ref.genes
+    small, fus, circ = {}, [], []
+    for gene in genes:
+        tx = gene.txs[0]
+        gs = c.ref.gene_seq(gene)
+        if rng.random() < 0.85:
+            for v in make_small(rng, c.ref, tx, rng.randint(1, 4)):
+                small[(tx.id, v.id)] = v
+        if rng.random() < 0.6:
+            others = [g for g in genes if g is not gene]
+            for _ in range(rng.randint(1, 2)):
+                acc = rng.choice(others).txs[0]
+                j = rng.randint(max(6, (tx.cds[0] + 6) if tx.coding else 6), tx.tx_len() - 1)
+                dpos = tx.tx2gene(j - 1) + 1
+                apos = acc.tx2gene(rng.randint(0, max(0, acc.tx_len() - 10)))
+                f = Fusion(gene, tx, dpos, acc.gene, acc, apos, gs[min(dpos, len(gs) - 1)])
+                if all(x.id != f.id for x in fus):
+                    fus.append(f)
+        if rng.random() < 0.6:
+            for _ in range(rng.randint(1, 2)):
+                n = rng.randint(1, len(tx.exons))
+                i0 = rng.randint(0, len(tx.exons) - n)
+                cr = Circ(gene, tx, tx.exons[i0:i0 + n])
+                if all(x.id != cr.id for x in circ):
+                    circ.append(cr)
+    if not small or not (fus or circ):
+        return False
+    vs = sorted(small.values(), key=lambda v: (v.gene.id, v.gstart, v.gend, v.alt))
+    c.files = [('v1.gvf', 'gSNP', vs)]
+    if fus:
+        c.files.append(('fusion.gvf', 'Fusion', fus))
+    if circ:
+        c.files.append(('circ.gvf', 'circRNA', circ))
+    return True
+
+
+def make_small(rng, ref, tx, n):
+    return gvfgen.make_small_variants(rng, ref, tx, n, cluster=rng.random() < 0.3, mnv_p=0.0, max_indel=2)
+
+
 # ------------------------------------------------------------------------------------------
 # backbones from the object model
 
